@@ -41,9 +41,46 @@ type world struct {
 	hangs     []string
 }
 
-func newWorld(w int, cancel bool) *world {
+func newWorld(w int, cancel bool) *world { return newWorldOpt(w, cancel, true) }
+
+// newWorldOpt: panicOnReject = WithPanicOnSubmitAfterShutdown (false: a rejected Submit returns silently; the harness
+// then knows the verdict of a Submit only where the schedule determines it).
+func newWorldOpt(w int, cancel, panicOnReject bool) *world {
 	return newWorldOn(workerpool.New("c16", workerpool.WithWorkerCount(w), workerpool.WithCancelPendingTasksOnShutdown(cancel),
-		workerpool.WithPanicOnSubmitAfterShutdown(true)), w, cancel)
+		workerpool.WithPanicOnSubmitAfterShutdown(panicOnReject)), w, cancel)
+}
+
+// submitSilentRejected: a Submit on a pool without the panic option at a moment where the schedule says it must be
+// rejected (stopped and complete, nobody else acts): the call returns silently, the task must never run and the counter
+// must not move; logged as call/rej.
+func (wd *world) submitSilentRejected() {
+	wd.mu.Lock()
+	t := wd.calls
+	wd.calls++
+	wd.events = append(wd.events, fmt.Sprintf("call %d", t))
+	run := new(atomic.Int32)
+	wd.runs = append(wd.runs, run)
+	wd.accepted = append(wd.accepted, false)
+	wd.rejected = append(wd.rejected, true)
+	wd.mu.Unlock()
+	var p string
+	if !wd.within(bound, func() {
+		p = hx.Safely(func() {
+			wd.pool.Submit(func() {
+				run.Add(1)
+				wd.log(fmt.Sprintf("rs %d", t))
+				wd.log(fmt.Sprintf("re %d", t))
+			})
+		})
+	}) {
+		wd.hangs = append(wd.hangs, "submit")
+
+		return
+	}
+	if p != "" {
+		wd.log("panic " + p)
+	}
+	wd.log(fmt.Sprintf("rej %d", t))
 }
 
 // newGroupWorld creates the pool through Group.CreatePool: explicit is "true"/"false" (the caller passes
@@ -95,20 +132,26 @@ func withinPool(pool *workerpool.WorkerPool, idle func() time.Duration, d time.D
 		defer close(done)
 		f()
 	}()
-	deadline := time.Now().Add(d)
+	deadline := time.Now().Add(eff(d))
 	for {
 		if waitChan(done, 250*time.Millisecond) {
 			return true
 		}
 		if time.Now().After(deadline) {
+			hangs.expired(d)
+
 			return false
 		}
 		if i := idle(); i > 4*time.Second {
 			st := poolStateOf(pool)
 			if st.readable && st.running == "false" && st.queued > 0 && st.pending > 0 && idle() > 4*time.Second {
+				hangs.expired(d)
+
 				return false
 			}
 			if st.readable && st.running == "false" && st.queued == 0 && st.pending == 0 && idle() > 10*time.Second {
+				hangs.expired(d)
+
 				return false
 			}
 		}
@@ -116,6 +159,10 @@ func withinPool(pool *workerpool.WorkerPool, idle func() time.Duration, d time.D
 }
 
 func (wd *world) within(d time.Duration, f func()) bool {
+	if len(wd.hangs) > 0 && d > time.Second {
+		d = time.Second // this pool has already hung in this case (the finding is made): it is not given another 30 s per call
+	}
+
 	return withinPool(wd.pool, func() time.Duration {
 		wd.mu.Lock()
 		defer wd.mu.Unlock()
@@ -196,14 +243,44 @@ func within(d time.Duration, f func()) bool {
 		defer close(done)
 		f()
 	}()
-	t := time.NewTimer(d)
+	t := time.NewTimer(eff(d))
 	defer t.Stop()
 	select {
 	case <-done:
 		return true
 	case <-t.C:
+		hangs.expired(d)
+
 		return false
 	}
+}
+
+// guarded runs a call into the code under test that is expected to return at once; a call that does not return within
+// the bound is the finding `termination` (signature from the pool's state).
+func guarded(r *result, pool *workerpool.WorkerPool, what string, f func()) bool {
+	if within(bound, f) {
+		return true
+	}
+	sig := map[string]string{"api": "workerpool", "effect": "hang", "wait": what}
+	if pool != nil {
+		sig = classifyPool(pool, what)
+	}
+	r.fail("termination", "call '"+what+"' did not return within its bound; "+fmt.Sprint(sig), sig)
+
+	return false
+}
+
+// submitG: a Submit made by the case's own goroutine, guarded like every other call (a Submit blocks when the pool lock
+// is write-held or a writer is queued).
+func (wd *world) submitG(b body) bool {
+	acc := false
+	if !wd.within(bound, func() { acc = wd.submit(b) }) {
+		wd.hangs = append(wd.hangs, "submit")
+
+		return false
+	}
+
+	return acc
 }
 
 func (wd *world) start(d time.Duration) bool {
@@ -263,15 +340,23 @@ type poolState struct {
 
 func (wd *world) state() poolState { return poolStateOf(wd.pool) }
 
+var unreadablePools sync.Map
+
 func poolStateOf(pool *workerpool.WorkerPool) poolState {
 	st := poolState{running: "unreadable", pending: -1, queued: -1}
-	ok := within(2*time.Second, func() {
+	patience := 2 * time.Second
+	if _, seen := unreadablePools.Load(pool); seen && hangs.confirmed() {
+		patience = 100 * time.Millisecond // found unreadable before, on a tree that is known to hang
+	}
+	ok := within(patience, func() {
 		r := pool.IsRunning()
 		p := pool.PendingTasksCounter.Get()
 		q := pool.Queue.Size()
 		st = poolState{running: fmt.Sprint(r), pending: p, queued: q, readable: true}
 	})
 	if !ok {
+		unreadablePools.Store(pool, true)
+
 		return poolState{running: "unreadable", pending: -1, queued: -1}
 	}
 
@@ -463,12 +548,14 @@ func unpark(w *workerpool.WorkerPool) {
 }
 
 func waitChan(c chan struct{}, d time.Duration) bool {
-	t := time.NewTimer(d)
+	t := time.NewTimer(eff(d))
 	defer t.Stop()
 	select {
 	case <-c:
 		return true
 	case <-t.C:
+		hangs.expired(d)
+
 		return false
 	}
 }
